@@ -27,6 +27,7 @@
 #include "../compress/zstd_compress_internal.h" /* ZSTD_hash*() */
 #include "../zdict.h"
 #include "cover.h"
+#include "../common/zstd_verif.h" /* ZSTD_VERIF_EV (no-op unless ZSTD_VERIF_TRACE) */
 
 
 /*-*************************************
@@ -268,6 +269,7 @@ static void
 FASTCOVER_ctx_destroy(FASTCOVER_ctx_t* ctx)
 {
     if (!ctx) return;
+    ZSTD_VERIF_EV("cvCtxDestroy", ctx, 0, 0, 0, 0, 0, 0);
 
     free(ctx->freqs);
     ctx->freqs = NULL;
@@ -389,6 +391,7 @@ FASTCOVER_ctx_init(FASTCOVER_ctx_t* ctx,
     DISPLAYLEVEL(2, "Computing frequencies\n");
     FASTCOVER_computeFrequency(ctx->freqs, ctx);
 
+    ZSTD_VERIF_EV("cvCtxInit", ctx, 0, 0, 0, 0, 0, 0);
     return 0;
 }
 
@@ -484,6 +487,7 @@ static void FASTCOVER_tryParameters(void* opaque)
   BYTE *const dict = (BYTE*)malloc(dictBufferCapacity);
   COVER_dictSelection_t selection = COVER_dictSelectionError(ERROR(GENERIC));
   U32* freqs = (U32*) malloc(((U64)1 << ctx->f) * sizeof(U32));
+  ZSTD_VERIF_EV("cvJobBegin", ctx, parameters.k, parameters.d, 0, 0, 0, 0);
   if (!segmentFreqs || !dict || !freqs) {
     DISPLAYLEVEL(1, "Failed to allocate buffers: out of memory\n");
     goto _cleanup;
